@@ -44,6 +44,9 @@ def gen_case(st, tier, env):
     w, k = st.workload, st.knobs
     ds = gen.gen_dataset(w, n_max=k.choice([4, 5, 6]), m_max=5)
     scheme = gen.gen_scheme(w, dyadic=k.random() < 0.7)
+    if k.random() < 0.1:
+        # very small / very large penalties are valid schemes; nothing here compares scores, only worlds
+        scheme = dict(gen.scale(scheme, 10.0 ** k.choice([-6, -5, 5, 6])), family=scheme.get("family", "") + "/magnitude")
     nops = k.choice([5, 8, 12, 20, 40])
     heavy_left = 6  # bound the number of ILP runs per history
     algs = [gen.gen_alg(w, env, heavy_ok=True) for _ in range(k.choice([2, 3, 4]))]
